@@ -10,7 +10,7 @@ from ..common import AnalysisError, rel
 from ..callgraph import CallGraph
 from ..connmodel import ConnModel, CONN
 from ..cfg import cfg_of
-from .. import boolfn, pathsum
+from .. import boolfn, pathsum, shared
 from ..pathsum import struct, show, is_const
 
 
@@ -586,6 +586,7 @@ def r5(report, db, cg, M, S):
     how_bad = None
     shut_seen = shut_caught = 0
     n_close = 0
+    narrow = None
 
     def recv_is(e, place):
         return (e.fn[0] == 'attr' and struct(e.fn[1]) == place) or (
@@ -617,6 +618,17 @@ def r5(report, db, cg, M, S):
             if any(n[0] == 'caught' and n[3] is e.node for n in p.notes) \
                     and close:
                 shut_caught += 1
+            for n in p.notes:
+                if n[0] == 'caught' and n[3] is e.node:
+                    cov = shared.handler_covers_oserror(db, dc if
+                                                        e.fi is None else e.fi,
+                                                        n[1])
+                    if cov is None:
+                        raise AnalysisError(
+                            'the guard around shutdown() names a class '
+                            'that does not resolve', n[1], rel(dc.path))
+                    if cov is False:
+                        narrow = n[1]
         raised_here = p.raises and len(p.outcome) > 3 and any(
             p.outcome[2] is e.node for e in shut + close + fclose)
         if has_sock and not raised_here:
@@ -668,8 +680,17 @@ def r5(report, db, cg, M, S):
         report.violation(R, 'teardown:shutdown-raises', dc.path, dc.node,
                          dc.qualname, 'shutdown() on an already closed peer '
                          'raises out of disconnect()')
+    elif narrow is not None:
+        report.violation(R, 'teardown:shutdown-guard', dc.path, narrow,
+                         dc.qualname, 'the guard around shutdown() takes '
+                         'only `%s`: shutting down a socket whose peer is '
+                         'already gone raises a plain OSError (ENOTCONN), '
+                         'which now propagates out of disconnect() -- and '
+                         'out of the exception dispatch that calls it'
+                         % ast.unparse(narrow.type))
     elif shut_seen:
-        report.ok(R, 'shutdown() errors are caught and the close goes on')
+        report.ok(R, 'shutdown() errors (any OSError) are caught and the '
+                  'close goes on')
 
 
 # ---------------------------------------------------------------------------
